@@ -23,7 +23,8 @@ theorem sc_bool (g : Nat) (hg : 0 < g) (x : Bool) : specChunk senv g .bool (.boo
   cases g with | zero => omega | succ f => rfl
 theorem sc_msgAddress (g : Nat) (hg : 0 < g) (v : Val) : specChunk senv g .msgAddress v = specMsgAddress v := by
   cases g with | zero => omega | succ f => rfl
-theorem sc_hashmapE (g : Nat) (hg : 0 < g) : specChunk senv g .hashmapE .nil = some ([false], []) := by
+theorem sc_hashmapE (g : Nat) (hg : 0 < g) (n : Nat) (sk st : SType) :
+    specChunk senv g (.hashmapE n sk st) .nil = some ([false], []) := by
   cases g with | zero => omega | succ f => rfl
 theorem sc_cellRef (g : Nat) (hg : 0 < g) (c : Cell) : specChunk senv g .cellRef (.cell c) = some ([], [c]) := by
   cases g with | zero => omega | succ f => rfl
